@@ -1,11 +1,16 @@
 import BM.CssDefault
 import BM.Spec.More
 import BM.Props.Pins
+import BM.Proofs.RegexLemmas
 /-
   C18: default CSS value handlers accept only inert, whole values.
   Proved: the lookup for a property that is not in the (regenerated) table yields a handler
   that rejects everything, for every value; the table and every handler body are regenerated
   from css/handlers.go on each run and the four helper functions are pinned by hash.
+  Proved as well, **for every string**: each of the 38 anchored regular expressions the handlers
+  use (regenerated from css/handlers.go) accepts only strings over an inert alphabet — no
+  `< > \ @ { } ;`, no control character (`css_*_closed`, by `Re.search_alphabet`); so the
+  leaves of the handlers cannot let a hostile fragment through, e.g. inside `url(...)`.
   Partial: `∀ v, handler v = true → Inert v` for each of the ~210 table entries is not proved
   in general (it needs an abstract interpretation of the Go-lite bodies, DESIGN §6 C18); it is
   checked on every accepted value of the `hdl` family (own-vocabulary tokens with hostile
@@ -22,6 +27,76 @@ theorem unknown_property_rejects (prop : Bytes)
 
 set_option maxRecDepth 100000 in
 theorem no_such_property : Gen.defaultStyleHandlers.find? (·.1 == b!"no-such-property") = none := by decide
+
+
+/-! ### the regular expressions of css/handlers.go are closed over an inert alphabet -/
+
+/-- printable ASCII without `;` `<` `>` `@` `\` `{` `}` (and without `=` `?`-neighbours only
+    where the expressions need none): no angle bracket, backslash, at-sign, brace, semicolon or
+    control character -/
+def inertA : List (Rune × Rune) := [(32, 58), (61, 61), (63, 63), (65, 91), (93, 122), (124, 124), (126, 126)]
+/-- the same plus the typographic quotation marks of the `quotes` property -/
+def inertQ : List (Rune × Rune) := inertA ++ [(0xAB, 0xAB), (0xBB, 0xBB), (0x2018, 0x201E), (0x2039, 0x203A)]
+
+def ClosedCss (r : Re) (A : List (Rune × Rune)) : Prop :=
+  ∀ s : Bytes, Re.matchBytes r s = true → ∀ c ∈ decodeRunes s, Re.inRanges c A = true
+
+theorem closedCss_of (r : Re) (A : List (Rune × Rune)) (ha : Re.anchoredBoth r = true)
+    (hw : Re.within (some A) r = true) : ClosedCss r A :=
+  fun s h => Re.search_alphabet A r ha hw (decodeRunes s) h
+
+set_option maxRecDepth 100000
+
+theorem css_Alpha_closed : ClosedCss Gen.cssReAlpha inertA := closedCss_of _ _ (by decide) (by decide)
+theorem css_Blur_closed : ClosedCss Gen.cssReBlur inertA := closedCss_of _ _ (by decide) (by decide)
+theorem css_BrightnessCont_closed : ClosedCss Gen.cssReBrightnessCont inertA := closedCss_of _ _ (by decide) (by decide)
+theorem css_Count_closed : ClosedCss Gen.cssReCount inertA := closedCss_of _ _ (by decide) (by decide)
+theorem css_CubicBezier_closed : ClosedCss Gen.cssReCubicBezier inertA := closedCss_of _ _ (by decide) (by decide)
+theorem css_Digits_closed : ClosedCss Gen.cssReDigits inertA := closedCss_of _ _ (by decide) (by decide)
+theorem css_Font_closed : ClosedCss Gen.cssReFont inertA := closedCss_of _ _ (by decide) (by decide)
+theorem css_Grayscale_closed : ClosedCss Gen.cssReGrayscale inertA := closedCss_of _ _ (by decide) (by decide)
+theorem css_GridTemplateAreas_closed : ClosedCss Gen.cssReGridTemplateAreas inertA := closedCss_of _ _ (by decide) (by decide)
+theorem css_HSL_closed : ClosedCss Gen.cssReHSL inertA := closedCss_of _ _ (by decide) (by decide)
+theorem css_HSLA_closed : ClosedCss Gen.cssReHSLA inertA := closedCss_of _ _ (by decide) (by decide)
+theorem css_HexRGB_closed : ClosedCss Gen.cssReHexRGB inertA := closedCss_of _ _ (by decide) (by decide)
+theorem css_HueRotate_closed : ClosedCss Gen.cssReHueRotate inertA := closedCss_of _ _ (by decide) (by decide)
+theorem css_Invert_closed : ClosedCss Gen.cssReInvert inertA := closedCss_of _ _ (by decide) (by decide)
+theorem css_Length_closed : ClosedCss Gen.cssReLength inertA := closedCss_of _ _ (by decide) (by decide)
+theorem css_Matrix_closed : ClosedCss Gen.cssReMatrix inertA := closedCss_of _ _ (by decide) (by decide)
+theorem css_Matrix3D_closed : ClosedCss Gen.cssReMatrix3D inertA := closedCss_of _ _ (by decide) (by decide)
+theorem css_NegTime_closed : ClosedCss Gen.cssReNegTime inertA := closedCss_of _ _ (by decide) (by decide)
+theorem css_Numeric_closed : ClosedCss Gen.cssReNumeric inertA := closedCss_of _ _ (by decide) (by decide)
+theorem css_NumericDecimal_closed : ClosedCss Gen.cssReNumericDecimal inertA := closedCss_of _ _ (by decide) (by decide)
+theorem css_Opacity_closed : ClosedCss Gen.cssReOpacity inertA := closedCss_of _ _ (by decide) (by decide)
+theorem css_Opactiy_closed : ClosedCss Gen.cssReOpactiy inertA := closedCss_of _ _ (by decide) (by decide)
+theorem css_Position_closed : ClosedCss Gen.cssRePosition inertA := closedCss_of _ _ (by decide) (by decide)
+theorem css_QuotedAlpha_closed : ClosedCss Gen.cssReQuotedAlpha inertA := closedCss_of _ _ (by decide) (by decide)
+theorem css_RGB_closed : ClosedCss Gen.cssReRGB inertA := closedCss_of _ _ (by decide) (by decide)
+theorem css_RGBA_closed : ClosedCss Gen.cssReRGBA inertA := closedCss_of _ _ (by decide) (by decide)
+theorem css_Rect_closed : ClosedCss Gen.cssReRect inertA := closedCss_of _ _ (by decide) (by decide)
+theorem css_Rotate_closed : ClosedCss Gen.cssReRotate inertA := closedCss_of _ _ (by decide) (by decide)
+theorem css_Rotate3D_closed : ClosedCss Gen.cssReRotate3D inertA := closedCss_of _ _ (by decide) (by decide)
+theorem css_Saturate_closed : ClosedCss Gen.cssReSaturate inertA := closedCss_of _ _ (by decide) (by decide)
+theorem css_Sepia_closed : ClosedCss Gen.cssReSepia inertA := closedCss_of _ _ (by decide) (by decide)
+theorem css_Span_closed : ClosedCss Gen.cssReSpan inertA := closedCss_of _ _ (by decide) (by decide)
+theorem css_Steps_closed : ClosedCss Gen.cssReSteps inertA := closedCss_of _ _ (by decide) (by decide)
+theorem css_Time_closed : ClosedCss Gen.cssReTime inertA := closedCss_of _ _ (by decide) (by decide)
+theorem css_TransitionProp_closed : ClosedCss Gen.cssReTransitionProp inertA := closedCss_of _ _ (by decide) (by decide)
+theorem css_URL_closed : ClosedCss Gen.cssReURL inertA := closedCss_of _ _ (by decide) (by decide)
+theorem css_ZIndex_closed : ClosedCss Gen.cssReZIndex inertA := closedCss_of _ _ (by decide) (by decide)
+theorem css_Quotes_closed : ClosedCss Gen.cssReQuotes inertQ := closedCss_of _ _ (by decide) (by decide)
+
+/-- the inert alphabets contain none of the hostile characters of C18 and no control character -/
+theorem inert_alphabets_exclude :
+    ∀ A ∈ [inertA, inertQ], ∀ c ∈ [60, 62, 92, 64, 123, 125, 59, 0, 1, 8, 9, 10, 11, 12, 13, 27, 31, 127],
+      Re.inRanges c A = false := by decide
+
+/-- the five expressions that are *not* whole-value recognisers are exactly the ones the handlers
+    use with FindString / ReplaceAll (their callers compare the remainder); a change that
+    un-anchors another expression breaks this statement -/
+theorem css_unanchored_are :
+    (Gen.cssRegexes.filter fun nr => !Re.anchoredBoth nr.2).map (·.1) =
+      ["DropShadow", "Perspective", "Skew", "TranslateScale"] := by decide
 
 /-- spot checks of the spec-side predicate (these are tests, not the unbounded claim) -/
 example : Spec.inert b!"url(http://a.b/c.png) no-repeat" = true ∧ Spec.inert b!"url(javascript:alert(1))" = false ∧
